@@ -84,7 +84,7 @@ Lemma read_exact_benign : forall tmo n r,
        r_eof (ro_rd o) = eof.
 Proof.
   intros tmo n r (Hb & Hreset & Hst & Heof) Hn Hdead. cbn zeta. unfold view.
-  unfold read_exact. rewrite Hdead.
+  rewrite read_exact_eq. unfold read_exact_ref. rewrite Hdead.
   destruct (n <=? 0) eqn:E0; [lia|].
   rewrite app_length, ev_bytes_stream.
   set (tot := (length (r_avail r) + length (ev_stream (r_evs r)))%nat).
@@ -143,11 +143,11 @@ Proof.
   - inversion H1; inversion H2; subst. auto.
   - assert (Hd : r_dead r1 = r_dead r2) by (unfold view in Hv; inversion Hv; reflexivity).
     destruct (n <=? 0) eqn:En.
-    { unfold read_exact in H1, H2. rewrite En in H1, H2. cbn in H1, H2.
+    { rewrite !read_exact_eq in H1, H2. unfold read_exact_ref in H1, H2. rewrite En in H1, H2. cbn in H1, H2.
       destruct (run c (k []) r1) as [[a1 b1] c1] eqn:E1. destruct (run c (k []) r2) as [[a2 b2] c2] eqn:E2.
       inversion H1; inversion H2; subst. exact (IH [] _ _ _ _ _ _ _ _ Hb1 Hb2 Hv E1 E2). }
     destruct (r_dead r1) eqn:Ed1.
-    { unfold read_exact in H1, H2. rewrite En in H1, H2. rewrite Ed1 in H1. rewrite <- Hd in H2. cbn in H1, H2.
+    { rewrite !read_exact_eq in H1, H2. unfold read_exact_ref in H1, H2. rewrite En in H1, H2. rewrite Ed1 in H1. rewrite <- Hd in H2. cbn in H1, H2.
       inversion H1; inversion H2; subst. auto. }
     pose proof (read_exact_benign (timeout_of c) n r1 Hb1 ltac:(lia) Ed1) as P1.
     pose proof (read_exact_benign (timeout_of c) n r2 Hb2 ltac:(lia) ltac:(congruence)) as P2.
